@@ -332,7 +332,8 @@ Proof.
   - cbn [length Nat.add Nat.ltb Nat.leb map app set_logs m_logs m_cur m_pre_ptr m_limit m_actors m_disk].
     repeat split; try congruence; assumption.
   - replace (0 <? length (a :: A') + 0)%nat with true by (cbn [length Nat.add]; reflexivity).
-    rewrite Nat.add_0_r, <- (map_length fst (a :: A')), skipn_length_app.
+    replace (length (a :: A') + 0)%nat with (length (mfst (a :: A'))) by (rewrite map_length; lia).
+    rewrite skipn_length_app.
     destruct (mfst (fsplit L k)) as [|g0 l0] eqn:El.
     + exfalso. apply Hne'. destruct (fsplit L k); [reflexivity|discriminate].
     + cbn [save_logs set_logs m_logs m_cur m_pre_ptr m_limit m_actors m_disk].
@@ -374,8 +375,8 @@ Proof.
   assert (Hkb : k < g_end gb).
   { destruct Hb as (_ & _ & _ & Hle & Hmax & _). destruct (g_close gb) eqn:E.
     - rewrite (g_end_closed gb cb) by (assumption || (inversion Hok'; assumption)). lia.
-    - rewrite (g_end_open gb E). lia. }
-  constructor; [split; [lia|exact Hkb]|]. apply (IH (gb, cb)); assumption.
+    - rewrite (g_end_open gb E). clear - Hsp Hk Hle Hmax. lia. }
+  constructor; [cbn [fst snd]; split; [lia|exact Hkb]|]. apply (IH (gb, cb)); assumption.
 Qed.
 
 (** files that differ at most in the split-off their range records *)
@@ -442,7 +443,8 @@ Proof.
     split; constructor.
     + repeat split.
     + apply req_refl.
-    + unfold file_ok. cbn [gsp g_start g_split g_close g_count]. repeat split; try assumption. lia.
+    + unfold file_ok. cbn [gsp g_start g_split g_close g_count].
+      split; [exact W|]. split; [exact Hfirst|]. split; [lia|]. split; [exact Hle|]. split; [exact Hmax|exact Hcnt].
     + exact Hok'.
   - destruct (IH Hok' Hk') as [H1 H2]. split; constructor; try assumption. repeat split.
 Qed.
@@ -462,7 +464,8 @@ Proof.
   - exists (gsp g k), (csp c k), B. split; [reflexivity|]. split; [|split; [|split; [|split; [|split; [|split; [|split]]]]]].
     + unfold file_ok. change (c_end (csp c k)) with (c_end c). change (c_all (csp c k)) with (c_all c).
       cbn [gsp csp g_start g_split g_close g_count c_first c_split].
-      split; [apply wfc_csp; exact W|]. repeat split; try assumption; try lia. unfold c_end in *. lia.
+      split; [apply wfc_csp; exact W|]. split; [exact Hfirst|]. split; [lia|].
+      split; [unfold c_end in *; lia|]. split; [exact Hmax|exact Hcnt].
     + cbn [csp c_split]. lia.
     + reflexivity.
     + reflexivity.
@@ -475,6 +478,160 @@ Proof.
     { eapply Forall_impl; [|exact Ht]. cbn. intros a [Ha _]. exact Ha. }
     exists g, c, (fsplit B k). split; [reflexivity|]. split; [|split; [|split; [|split; [|split; [|split; [|split]]]]]];
       try reflexivity; try assumption.
-    + unfold file_ok. repeat split; assumption.
+    + unfold file_ok. split; [exact W|]. split; [exact Hfirst|]. split; [exact Hsp|]. split; [exact Hle|]. split; [exact Hmax|exact Hcnt].
     + lia.
+Qed.
+
+(** * inserting the pointer file in front of a non-empty catalogue *)
+Definition ins_ptr (m1 : mgr) (ptr : lrec) : mgr :=
+  match m_logs m1 with
+  | [] => fst (mgr_write 3 m1 ptr true)
+  | first :: _ =>
+      let g := mkRange (g_id first - 1) (r_term ptr) (r_index ptr) 1 (r_index ptr) true in
+      let m2 := save_logs (set_logs m1 (g :: m_logs m1)) in
+      match actor_of (set_logs m2 (m_logs m1)) g with
+      | Ok (s, m3) => let '(s', _) := write s ptr in set_logs (set_actor m3 (g_id g) s') (g :: m_logs m1)
+      | _ => m2
+      end
+  end.
+
+Lemma save_pointer_ins m ptr : mgr_save_pointer m ptr = ins_ptr (mgr_split_off m (r_index ptr + 1)) ptr.
+Proof. reflexivity. Qed.
+
+Definition ptr_range (id : N) (ptr : lrec) : lrange :=
+  mkRange (id - 1) (r_term ptr) (r_index ptr) 1 (r_index ptr) true.
+Definition ptr_cst (limit : N) (ptr : lrec) : cst :=
+  c_push (c_fresh limit (r_index ptr) (r_term ptr) (r_index ptr)) ptr.
+
+Lemma ptr_cst_all limit ptr : c_all (ptr_cst limit ptr) = [ptr].
+Proof. unfold ptr_cst. rewrite c_all_push. reflexivity. Qed.
+Lemma ptr_cst_first limit ptr : c_first (ptr_cst limit ptr) = r_index ptr.
+Proof. reflexivity. Qed.
+Lemma ptr_cst_split limit ptr : c_split (ptr_cst limit ptr) = r_index ptr.
+Proof. unfold ptr_cst, c_push, c_fresh. cbn [c_split]. apply N.max_id. Qed.
+Lemma ptr_cst_end limit ptr : c_end (ptr_cst limit ptr) = r_index ptr + 1.
+Proof. unfold c_end. rewrite ptr_cst_all, ptr_cst_first. unfold nlen. cbn [length]. lia. Qed.
+Lemma ptr_cst_vis limit ptr : vis (ptr_cst limit ptr) = [ptr].
+Proof. unfold vis. rewrite ptr_cst_all, ptr_cst_first, ptr_cst_split, N.sub_diag. reflexivity. Qed.
+
+Lemma insert_ptr m1 g' c' (B' : list mfile) ptr :
+  m_logs m1 = mfst ((g', c') :: B') ->
+  (forall id, lookup id (m_actors m1) = lookup id (amap ((g', c') :: B'))) ->
+  (forall id, lookup id (m_disk m1) = None) ->
+  m_cur m1 = last_id ((g', c') :: B') -> HDR_LEN + 10 < m_limit m1 <= 4096 ->
+  Forall file_ok ((g', c') :: B') -> chain ((g', c') :: B') ->
+  Forall (fun f => 1 <= f_id f) ((g', c') :: B') ->
+  c_split c' = r_index ptr + 1 -> rec_ok ptr -> rec_nonempty ptr ->
+  mgr_rep (ins_ptr m1 ptr) ((ptr_range (g_id g') ptr, ptr_cst (m_limit m1) ptr) :: (g', c') :: B') /\
+  m_limit (ins_ptr m1 ptr) = m_limit m1 /\ m_pre_ptr (ins_ptr m1 ptr) = m_pre_ptr m1.
+Proof.
+  intros Hlogs Hact Hdisk Hcur Hlim Hok Hch Hids Hsp Hrok Hrne.
+  set (c0 := c_fresh (m_limit m1) (r_index ptr) (r_term ptr) (r_index ptr)).
+  assert (W0 : wfc c0) by (apply wfc_fresh; lia).
+  assert (Hnf : is_full (conc c0) = false) by (apply fresh_not_full; lia).
+  assert (Hi0 : r_index ptr = c_first c0 + nlen (c_all c0)).
+  { unfold c0, c_fresh, c_all. cbn [c_first c_blocks c_part concat app]. unfold nlen. cbn [length]. lia. }
+  destruct (write_conc c0 ptr W0 Hnf Hi0 Hrok Hrne) as [Hw W1].
+  inversion Hids as [|? ? Hid1 Hids']; subst. unfold f_id in Hid1. cbn [fst] in Hid1.
+  pose proof (links_ids_lt B' (g', c') (proj1 Hch)) as Hlt.
+  assert (Hnotin : ~ In (g_id g' - 1) (map f_id ((g', c') :: B'))).
+  { cbn [map]. unfold f_id at 1. cbn [fst]. intros [H|H]; [lia|].
+    apply in_map_iff in H. destruct H as (f & Hf & Hin). rewrite Forall_forall in Hlt.
+    specialize (Hlt f Hin). unfold f_id at 1 in Hlt. cbn [fst] in Hlt. lia. }
+  inversion Hok as [|? ? Hok1 Hok']; subst.
+  destruct Hok1 as (W' & Hfirst' & Hsp' & Hle' & Hmax' & Hcnt').
+  unfold ins_ptr. rewrite Hlogs. cbn [map fst]. cbv zeta.
+  unfold actor_of. cbn [save_logs set_logs m_actors m_disk m_limit g_id].
+  rewrite Hact, (lookup_amap_notin _ _ Hnotin), Hdisk. cbn [g_start g_pre g_split].
+  rewrite init_fresh by lia. cbn [res_bind]. fold c0. rewrite Hw. cbv beta iota.
+  fold (ptr_cst (m_limit m1) ptr). fold (ptr_range (g_id g') ptr).
+  split; [|split; reflexivity].
+  constructor; cbn [set_actor save_logs set_logs m_logs m_saved m_actors m_disk m_cur m_limit].
+  - reflexivity.
+  - reflexivity.
+  - intros id. rewrite !lookup_set_key, lookup_amap_cons. unfold f_id at 1. cbn [fst snd ptr_range g_id].
+    destruct (id =? g_id g' - 1); [reflexivity|]. apply Hact.
+  - intros id. do 2 apply lookup_remove_key_none. apply Hdisk.
+  - constructor; [|exact Hok].
+    unfold file_ok. rewrite ptr_cst_first, ptr_cst_split, ptr_cst_end, ptr_cst_all.
+    cbn [ptr_range g_start g_split g_close g_count].
+    split; [exact W1|]. split; [reflexivity|]. split; [lia|]. split; [lia|]. split; [lia|]. intros _. reflexivity.
+  - destruct Hch as [Hlinks Hopen]. split.
+    + apply links_cons2. split; [|exact Hlinks].
+      unfold link, f_id. cbn [fst snd ptr_range g_id g_close]. rewrite ptr_cst_end. split; [lia|]. split; [lia|reflexivity].
+    + rewrite last_opt_cons2. exact Hopen.
+  - cbn [ids_pos]. split; [exact Hids|]. right. eexists. eexists. split; [reflexivity|].
+    unfold f_id. cbn [fst ptr_range g_id]. lia.
+  - rewrite Hcur. unfold last_id. rewrite last_opt_cons2. reflexivity.
+  - exact Hlim.
+Qed.
+
+(** * the visible records above the pointer *)
+Lemma above_app p l1 l2 : above p (l1 ++ l2) = above p l1 ++ above p l2.
+Proof. apply filter_app. Qed.
+
+Lemma above_all p : forall l i, indexed i l -> p < i -> above p l = l.
+Proof.
+  induction l as [|x l IH]; intros i Hi Hp; [reflexivity|]. cbn [indexed] in Hi. destruct Hi as [Hx Hl].
+  unfold above. cbn [filter]. fold (above p l). destruct (p <? r_index x) eqn:E; [|lia].
+  f_equal. apply (IH (i + 1)); [exact Hl|lia].
+Qed.
+
+Lemma above_none p : forall l i, indexed i l -> i + nlen l <= p + 1 -> above p l = [].
+Proof.
+  induction l as [|x l IH]; intros i Hi Hp; [reflexivity|]. cbn [indexed] in Hi. destruct Hi as [Hx Hl].
+  rewrite nlen_cons in Hp. unfold above. cbn [filter]. fold (above p l).
+  destruct (p <? r_index x) eqn:E; [lia|]. apply (IH (i + 1)); [exact Hl|lia].
+Qed.
+
+Lemma above_skip p : forall l i, indexed i l -> i <= p + 1 -> above p l = skipn (N.to_nat (p + 1 - i)) l.
+Proof.
+  induction l as [|x l IH]; intros i Hi Hp; [rewrite skipn_nil; reflexivity|].
+  destruct (N.eq_dec i (p + 1)) as [->|Hne].
+  - rewrite N.sub_diag. cbn [N.to_nat skipn]. apply (above_all p _ (p + 1)); [exact Hi|lia].
+  - cbn [indexed] in Hi. destruct Hi as [Hx Hl]. unfold above. cbn [filter]. fold (above p l).
+    destruct (p <? r_index x) eqn:E; [lia|]. rewrite (IH (i + 1)) by (assumption || lia).
+    replace (N.to_nat (p + 1 - i)) with (S (N.to_nat (p + 1 - (i + 1)))) by lia. reflexivity.
+Qed.
+
+Lemma skipn_add {A} : forall b a (l : list A), skipn a (skipn b l) = skipn (b + a) l.
+Proof.
+  induction b as [|b IH]; intros a l; [reflexivity|]. destruct l as [|x l]; [rewrite !skipn_nil; reflexivity|].
+  cbn [skipn Nat.add]. apply IH.
+Qed.
+
+(** raising the split-off of a file to p + 1 keeps exactly its visible records above p *)
+Lemma vis_raise c c' p :
+  wfc c -> c_split c <= p + 1 -> p + 1 <= c_end c ->
+  c_first c' = c_first c -> c_all c' = c_all c -> c_split c' = p + 1 ->
+  above p (vis c) = vis c'.
+Proof.
+  intros W Hs He Hf Ha Hs'. pose proof (wf_split c W) as Hfs.
+  rewrite (above_skip p (vis c) (c_split c)) by (try apply vis_indexed; (assumption || lia)).
+  unfold vis. rewrite Hf, Ha, Hs', skipn_add. f_equal. lia.
+Qed.
+
+Lemma files_vis_bounds (X : list mfile) f0 X' z :
+  Forall file_ok X -> links X -> X = f0 :: X' -> last_opt X = Some z ->
+  indexed (c_split (snd f0)) (files_vis X) /\ c_split (snd f0) + nlen (files_vis X) = c_end (snd z).
+Proof.
+  intros Hok Hl -> Hz. destruct (files_vis_indexed _ Hok Hl) as [Hi He]. split; [exact Hi|].
+  apply He. unfold files_end. rewrite Hz. reflexivity.
+Qed.
+
+Lemma req_lreq_all : forall (B B' : list mfile), Forall2 req B B' -> Forall2 lreq B B'.
+Proof. induction 1; constructor; [apply req_lreq|]; assumption. Qed.
+
+(** * save_new_snapshot_pointer for an index the log holds *)
+(** side condition found by the proof: a head file with id 0 (a pointer file in front of file 1) lies
+    wholly at or below the new pointer, so that it is dropped by the split-off.  Otherwise the new
+    pointer range would get the id [0 - 1] (0 in the model, an overflow in the source). *)
+Definition ptr_head_ok (fs : list mfile) (ptr : lrec) : Prop :=
+  match fs with f :: _ => 1 <= f_id f \/ c_end (snd f) <= r_index ptr + 1 | [] => True end.
+
+Lemma floor_ptr_head_ok fl (fs : list mfile) ptr :
+  floor_ok fl fs -> fl <= r_index ptr + 1 -> ptr_head_ok fs ptr.
+Proof.
+  intros [_ Hh] Hfl. destruct fs as [|f fs]; [exact I|]. cbn [ptr_head_ok].
+  destruct (N.eq_dec (f_id f) 0) as [E|E]; [right; specialize (Hh E); lia|left; lia].
 Qed.
